@@ -10,6 +10,7 @@ from ..core import AnalysisError, FUNC, call_attr, calls_in, const, dotted, is_c
 from .c01 import field_rules
 
 EXPLANATION = [
+    'C18.sdp-int-widths: the four SDP integer conversions (parse / serialise x unsigned / signed) handle exactly the widths of the integer size-index table, 1 / 2 / 4 / 8 / 16 octets.',
     'C18.avdtp-start-layout: avdtp: the assembler reads the signal identifier and the packet count of a START packet at the octet indices at which Protocol.send_message writes them.',
     'C18.no-constructor-range: data types of bumble.data_types whose from_bytes passes struct.unpack results to the constructor have no raising constructor / __post_init__ (every value of the field widths is representable).',
     'C18.padding-agreement: a from_bytes that strips padding off its input (rstrip / lstrip) has a serialiser that pads on the same side (ljust / rjust); no two-sided strip().',
@@ -1042,7 +1043,36 @@ def avdtp_start_layout(ctx):
     R.check(sig_reads == [i_sig] and cnt_reads == [i_cnt], rule, 'bumble.avdtp | START packet header', f'signal identifier at {i_sig}, packet count at {i_cnt} on both sides', f'the sender writes the signal identifier at octet {i_sig} and the count at octet {i_cnt}, the assembler reads them at {sig_reads} and {cnt_reads}: a fragmented message is reassembled with the wrong identifier / count and never delivered', p.loc(rcv))
 
 
+def sdp_int_widths(ctx):
+    """The four places that convert an SDP integer (parse / serialise, unsigned / signed) accept the same widths, and those
+    are the widths the size-index table of DataElement.__bytes__ has for integers (1, 2, 4, 8, 16 octets)."""
+    R, p = ctx.r, ctx.p
+    rule = 'C18.sdp-int-widths'
+    ser = p.find('bumble.sdp.DataElement.__bytes__')
+    pu = p.find('bumble.sdp.DataElement.unsigned_integer_from_bytes')
+    ps = p.find('bumble.sdp.DataElement.signed_integer_from_bytes')
+    if ser is None or pu is None or ps is None:
+        R.bad(rule, 'bumble.sdp.DataElement integer codecs', 'anchor missing')
+        return
+
+    def widths(match_):
+        return sorted(const(c.pattern.value) for c in match_.cases if isinstance(c.pattern, ast.MatchValue) and is_const(c.pattern.value) and isinstance(const(c.pattern.value), int))
+    got = {}
+    for label, fn in (('parse unsigned', pu), ('parse signed', ps)):
+        ms = [m_ for m_ in walk_local(fn) if isinstance(m_, ast.Match)]
+        got[label] = widths(ms[0]) if ms else []
+    for m_ in [x for x in walk_local(ser) if isinstance(x, ast.Match) and norm(x.subject) == 'self.value_size']:
+        kind = 'unsigned' if any('>Q' in norm(c) or "'B'" in norm(c) for c in ast.walk(m_) if isinstance(c, ast.Call)) else 'signed'
+        got[f'serialise {kind}'] = widths(m_)
+    # the size-index table: sizes compared with `size` in the integer / UUID arm
+    table = sorted({const(c.comparators[0]) for c in ast.walk(ser) if isinstance(c, ast.Compare) and norm(c.left) == 'size' and isinstance(c.ops[0], (ast.Eq, ast.LtE)) and is_const(c.comparators[0]) and const(c.comparators[0]) in (1, 2, 4, 8, 16)})
+    R.check(len(got) == 4 and table == [1, 2, 4, 8, 16], rule, 'bumble.sdp.DataElement | integer codecs', f'4 conversions, size table {table}', f'{sorted(got)} / size table {table} (anchor)', p.loc(ser))
+    for label, w in sorted(got.items()):
+        R.check(w == table, rule, f'bumble.sdp.DataElement | {label}', f'widths {w}', f'{label} handles widths {w} but an SDP integer may be {table} octets wide: a well-formed element of a missing width cannot be parsed / built', p.loc(ser))
+
+
 RULES = [
+    ('C18.sdp-int-widths', sdp_int_widths),
     ('C18.avdtp-start-layout', avdtp_start_layout),
     ('C18.no-constructor-range', no_constructor_range),
     ('C18.padding-agreement', padding_agreement),
